@@ -56,7 +56,23 @@ def corpus(chk):
         args = [rng.choice(CL.ARGS) for _ in range(na)]
         kw = [(n, rng.choice(CL.ARGS)) for n in rng.sample(['a', 'bb', 'key'], rng.choice([0, 1, 2]))]
         out.append(('pretty_call', CL.Carrier(CL.K, args, kw, True, 'pairs')))
+    # commented values whose content depends on the OTHER settings (key order, truncation, depth): the variant the
+    # layout picks (comment at the end of the line / on a line of its own) must not change that content
+    c = P.comment
+    note = 'a note that is long enough not to fit next to the value'
+    for mk in (lambda: {'k': c({'b': 1, 'a': 2}, 'note'), 'j': 0},
+               lambda: {'k': c({'b': 1, 'a': {'z': 0, 'y': [3, 2, 1]}}, note)},
+               lambda: [c({'b': 1, 'a': 2}, 'note'), {'v': c([{'q': 1, 'p': 2}, (4, 5, 6, 7)], note)}],
+               lambda: CL.Carrier(CL.K, [c({'b': 1, 'a': 2}, 'arg')], [('kw', c({'d': [1, 2, 3], 'c': 0}, 'kwarg'))], True, 'pairs'),
+               lambda: {'outer': c({'inner': c({'n': 1, 'm': [1, 2, 3, 4]}, 'deep'), 'a': 0}, 'top')},
+               lambda: P.trailing_comment({'b': c([3, 2, 1], 'v'), 'a': 1}, 'tail')):
+        for _ in range(2 if q else 6):
+            out.append(('commented-settings', mk()))
     return out
+
+
+OTHER_SETTINGS = [{}, {}, {'sort_dict_keys': True}, {'max_seq_len': 2}, {'depth': 2}, {'sort_dict_keys': True, 'max_seq_len': 3},
+                  {'depth': 3, 'sort_dict_keys': True}]
 
 
 def check_c03(chk, args):
@@ -67,11 +83,14 @@ def check_c03(chk, args):
     meta = {}
     nprints = 0
     for vi, (kind, v) in enumerate(vals):
+        # the settings that are NOT layout settings are held fixed for the value
+        other = OTHER_SETTINGS[vi % len(OTHER_SETTINGS)] if kind != 'commented-settings' else \
+            OTHER_SETTINGS[2 + vi % (len(OTHER_SETTINGS) - 2)]
         try:
             with warnings.catch_warnings():
                 warnings.simplefilter('ignore')
                 with common.time_limit(20):
-                    ref = P.pformat(v, width=79, ribbon_width=71, indent=4)
+                    ref = P.pformat(v, width=79, ribbon_width=71, indent=4, **other)
             ref_term = pyterm.parse_output(ref)
         except (Exception, common.Timeout, pyterm.ParseError):
             continue    # other properties judge whether the value prints at all
@@ -85,12 +104,12 @@ def check_c03(chk, args):
         for (w, rw, ind) in cfgs:
             nprints += 1
             desc = {'kind': kind, 'value': repr(v)[:200], 'config': {'width': w, 'ribbon_width': rw, 'indent': ind},
-                    'reference': ref[:300]}
+                    'fixed_settings': other, 'reference': ref[:300]}
             try:
                 with warnings.catch_warnings():
                     warnings.simplefilter('ignore')
                     with common.time_limit(20):
-                        out = P.pformat(v, width=w, ribbon_width=rw, indent=ind)
+                        out = P.pformat(v, width=w, ribbon_width=rw, indent=ind, **other)
             except (Exception, common.Timeout) as e:  # noqa
                 chk.violation('C03.raises', 'pformat raised %r at %r although it prints at the reference configuration: %.200r'
                               % (e, desc['config'], v), desc)
